@@ -90,7 +90,8 @@ MonEv(M, r) ==
          ELSE IF \E q \in M.run[n] : M.up[n][q] THEN Fail(M1, n, "silence: running protocol never told that the connection closed")
          ELSE M1
     [] r.e = "redial" ->
-         IF M.conns[n] = {} /\ ~(r.ok /\ r.attempted) THEN Fail(M, n, "peer cannot be dialed again after the connection closed")
+         \* judged only when no earlier dial of this node was still unresolved (r.clean)
+         IF r.clean /\ M.conns[n] = {} /\ ~(r.ok /\ r.attempted) THEN Fail(M, n, "peer cannot be dialed again after the connection closed")
          ELSE M
     [] r.e = "newconn" ->
          IF ~r.must THEN M
